@@ -112,7 +112,7 @@ def run_one(job, tier):
                 rec["by"] = foreign[0][0] + " (sibling clause " + foreign[0][1] + ")"
                 return rec
             if r.returncode != 0:
-                rec["outcome"] = "INFRA"
+                rec["outcome"] = "NOCOMPILE" if "does not build" in r.stdout else "INFRA"
                 return rec
         rec["outcome"] = "SURVIVED"
         return rec
@@ -139,6 +139,27 @@ def own_tests(rec_job):
         return "tests-pass" if r.returncode == 0 else "tests-fail"
     finally:
         shutil.rmtree(d, ignore_errors=True)
+
+
+def rerun_jobs(path, outcomes):
+    """Re-create the mutants of an earlier campaign file whose outcome is in `outcomes` (after checks were strengthened)."""
+    jobs = []
+    for rec in json.load(open(path))["results"]:
+        if rec["outcome"] not in outcomes:
+            continue
+        lines = open(os.path.join("/repo/include/frg", rec["header"])).read().split("\n")
+        i = rec["line"] - 1
+        code = lines[i].split("//")[0]
+        if rec["before"] not in code:
+            print("stale:", rec["header"], rec["line"]); continue
+        if rec["op"] == "del":
+            cand = (i, "del", rec["before"], "/* deleted */")
+        else:
+            new = code.replace(rec["before"], rec["after"], 1)
+            # express as (start, replacement, end) over the whole code part of the line
+            cand = (i, rec["op"], rec["before"], rec["after"], 0, new, len(code))
+        jobs.append((rec["header"], lines, cand))
+    return jobs
 
 
 def arg(name, default):
@@ -169,6 +190,8 @@ def main():
                 break
         work += [(header, lines, c) for c in picked]
     rng.shuffle(work)
+    if "--rerun" in sys.argv:
+        work = rerun_jobs(arg("--rerun", ""), set(arg("--outcomes", "SURVIVED,INFRA").split(",")))
     print("%d mutants planned" % len(work), flush=True)
     out_path = arg("--out", os.path.join(ROOT, "selftest", "campaign-%d.json" % seed))
     results = []
